@@ -356,6 +356,21 @@ func c18Transfer(c c18Case, inc []string) (string, string) {
 	}
 	for _, req := range c.Requests {
 		if hasWild(req) {
+			// every concrete path the pattern names whose resolution meets no link at all (so none of the known gaps of
+			// the resolver is involved) is in the copy, with its content
+			for _, conc := range expand(c.Tree, req) {
+				links, f1, e1 := resolveRef(c.Tree, conc)
+				if !e1 || len(links) > 0 || f1 == "" {
+					continue
+				}
+				a, b := c.Tree.Find(f1), got.Find(f1)
+				if a == nil {
+					continue
+				}
+				if b == nil || a.Kind != b.Kind || string(a.Data) != string(b.Data) {
+					return "copy-resolves-differently:wildcard-match-missing", fmt.Sprintf("%q names %q (no link on the way) but the transferred tree %s does not hold it", req, f1, c18TreeString(got))
+				}
+			}
 			continue
 		}
 		_, f1, e1 := resolveRef(c.Tree, req)
